@@ -101,8 +101,9 @@ func runComponentTCPOnce(k int, kind string, payload []byte) []string {
 		return []string{"wiring-error:" + strings.ReplaceAll(err.Error(), " ", "_")}
 	}
 	ctx, cancel := context.WithTimeout(context.Background(), 10*time.Second)
-	defer cancel()
-	if err := app.Start(ctx); err != nil {
+	startErr := app.Start(ctx)
+	cancel() // the start context ends when the start is over, as under fx.App.Run: nothing may go on living off it
+	if err := startErr; err != nil {
 		return []string{"infra:start"}
 	}
 	defer func() { _ = app.Stop(context.Background()) }()
@@ -210,8 +211,9 @@ func runStall(args []string) []string {
 		return []string{"wiring-error:" + strings.ReplaceAll(err.Error(), " ", "_")}
 	}
 	sctx, cancel := context.WithTimeout(ctx, 10*time.Second)
-	defer cancel()
-	if err := app.Start(sctx); err != nil {
+	startErr := app.Start(sctx)
+	cancel() // the start context ends when the start is over, as under fx.App.Run
+	if startErr != nil {
 		return []string{"infra:start"}
 	}
 	defer func() { _ = app.Stop(context.Background()) }()
@@ -311,8 +313,9 @@ func runStallHTTP(args []string) []string {
 		return []string{"wiring-error:" + strings.ReplaceAll(err.Error(), " ", "_")}
 	}
 	sctx, cancel := context.WithTimeout(ctx, 10*time.Second)
-	defer cancel()
-	if err := app.Start(sctx); err != nil {
+	startErr := app.Start(sctx)
+	cancel() // the start context ends when the start is over, as under fx.App.Run
+	if startErr != nil {
 		return []string{"infra:start"}
 	}
 	defer func() { _ = app.Stop(context.Background()) }()
